@@ -11,14 +11,29 @@ Definition zb (b : bool) : Z := if b then 1%Z else 0%Z.
 
 Definition obs_num (l : lens FOps) : list float :=
   flat_map (fun s => [s_x s; s_y s; s_z s; s_rx s; s_ry s; s_R s; conic_read s] ++
-                     (match s_kind s with GEven => s_c s | _ => [] end) ++
                      [index_of l (s_mpre s); index_of l (s_mpost s)]) (surfs l)
   ++ waves l ++ [last_t l].
+
+(** aspheric / polynomial / Chebyshev coefficients (row-major), compared with a purely RELATIVE tolerance:
+    they are many orders of magnitude below 1 *)
+Definition has_coefs (g : gkind) : bool := match g with GEven | GOther => true | _ => false end.
+Definition obs_coef (l : lens FOps) : list float :=
+  flat_map (fun s => if has_coefs (s_kind s) then s_c s else []) (surfs l).
+
+Definition rclose (tol a b : float) : bool :=
+  if F_isnan a || F_isnan b then F_isnan a && F_isnan b
+  else (a =? b)%float || (abs (a - b) <=? tol * (abs a + abs b))%float.
+Fixpoint rclose_list (tol : float) (a b : list float) : bool :=
+  match a, b with
+  | [], [] => true
+  | x :: a', y :: b' => rclose tol x y && rclose_list tol a' b'
+  | _, _ => false
+  end.
 
 Definition obs_int (l : lens FOps) : list Z :=
   flat_map (fun s => [kind_tag (s_kind s); zb (match s_k s with Some _ => true | None => false end);
                       zb (s_stop s); zb (s_refl s);
-                      match s_kind s with GEven => Z.of_nat (List.length (s_c s)) | _ => 0%Z end]) (surfs l)
+                      if has_coefs (s_kind s) then Z.of_nat (List.length (s_c s)) else 0%Z]) (surfs l)
   ++ map Z.of_nat (mat_refs l)
   ++ map zb (prims l)
   ++ [Z.of_nat (List.length (pickups l)); Z.of_nat (List.length (solves l)); Z.of_nat (List.length (surfs l))].
@@ -30,15 +45,16 @@ Fixpoint zlist_eqb (a b : list Z) : bool :=
   | _, _ => false
   end.
 
-Definition state_ok (tol : float) (got : option (lens FOps)) (exp : option (list float * list Z)) : bool :=
+Definition state_ok (tol : float) (got : option (lens FOps)) (exp : option (list float * list float * list Z)) : bool :=
   match got, exp with
   | None, None => true
-  | Some l, Some (nums, ints) => close_list tol (obs_num l) nums && zlist_eqb (obs_int l) ints
+  | Some l, Some (nums, coefs, ints) =>
+      close_list tol (obs_num l) nums && rclose_list 0x1p-40 (obs_coef l) coefs && zlist_eqb (obs_int l) ints
   | _, _ => false
   end.
 
 (** one boolean per expected state; a missing or extra model state is a failure *)
-Fixpoint check_trace (tol : float) (got : list (option (lens FOps))) (exp : list (option (list float * list Z)))
+Fixpoint check_trace (tol : float) (got : list (option (lens FOps))) (exp : list (option (list float * list float * list Z)))
   : list bool :=
   match exp with
   | [] => []
